@@ -395,6 +395,18 @@ func runC11(c *core.Ctx) {
 			cases = append(cases, cli{chainBook(l, nil), n, "flag", cmds[0], fmt.Sprintf("chain %d limit %d via flag", l, n), false})
 		}
 	}
+	// the top of the chain is a recipe whose quoted name begins with the comment character ("#1 combo"): a heading
+	// like any other, wherever it is declared
+	for _, n := range []int{3, 4, 5, 10} {
+		for l := n - 1; l <= n+1; l++ {
+			for rep := 0; rep < 3; rep++ {
+				b := chainBook(l, nil)
+				b[0].Name = "#1 combo"
+				via := []string{"flag", "env", "config"}[rep]
+				cases = append(cases, cli{b, n, via, cmds[r.Intn(len(cmds))], fmt.Sprintf("chain %d limit %d via %s, top recipe \"#1 combo\"", l, n, via), false})
+			}
+		}
+	}
 	// limits and chains far beyond anything a person would type (a cap or a counter width hidden anywhere
 	// between the option and the resolver shows here): 1100, 10050 and 66000 references
 	for li, l := range []int{1100, 10050, 66000} {
@@ -474,6 +486,10 @@ func runC11(c *core.Ctx) {
 			// the case's own command first, then the others in rotation: every resolving command sees every case class
 			t.cmd = cmds[(i+k)%len(cmds)]
 			args = append([]string{}, baseArgs...)
+			if k%4 == 1 {
+				// the switch that would drop the book, given with an explicit false value: the book stays
+				args = append(args, []string{"--no-database=false", "--no-database=0", "--no-database=F"}[(i+k)%3])
+			}
 			if k%3 == 2 && t.cmd[0] != "summary" {
 				// a period that keeps no day, every day or is inverted: the book is resolved all the same
 				args = append(args, randomPeriod(rr, func(y, m, d int) string { return fmt.Sprintf("%04d/%02d/%02d", y, m, d) })...)
